@@ -92,7 +92,7 @@ fn alphabet_ext(vt: VariantType) -> Vec<(String, Variant)> {
             ("unit".into(), Variant::Region3int16(Region3int16::new(Vector3int16::new(0, 0, 0), Vector3int16::new(1, 2, 3)))),
             ("minmax".into(), Variant::Region3int16(Region3int16::new(Vector3int16::new(i16::MIN, -1, 0), Vector3int16::new(i16::MAX, 1, 2)))),
         ],
-        _ => alphabet(vt, Codec::Binary, false).into_iter().map(|l| (l.label, l.v)).collect(),
+        _ => alphabet(vt, Codec::Binary, true).into_iter().map(|l| (l.label, l.v)).collect(),
     }
 }
 
